@@ -95,6 +95,12 @@ class StmtMixin:
             raise Unsupported(f"statement {s.__class__.__name__}", s)
         return m(s, path)
 
+    def _s_FunctionDef(self, s, path):
+        # a nested function is a closure over the current environment (captured by value at definition time;
+        # finam's nested functions do not rebind captured names)
+        path.env[s.name] = sv.SPy("closure", (s, dict(path.env), self.frames[-1]))
+        return [(NEXT, path, None)]
+
     def _s_Pass(self, s, path):
         return [(NEXT, path, None)]
 
